@@ -48,27 +48,29 @@ func (c20) Exhaustive(tier string) (bool, string) {
 
 func (c20) Thresholds(tier string) map[string]int64 {
 	return map[string]int64{
-		"exhaustive-sequences":              1 << 18,
-		"queue-ops":                         3000000,
-		"queue-growths":                     8000,
-		"queue-growths-with-wrapped-head":   6000,
-		"sequences-with>=2-wrapped-growths": 200,
-		"stack-ops":                         50000,
-		"stack-clear":                       500,
-		"stack-pushall":                     1000,
-		"inputs-tokenised":                  8000,
-		"inputs-with-indent":                2000,
-		"tokens":                            1000000,
-		"indent-tokens":                     20000,
-		"multi-level-dedent>=3":             500,
-		"lexer-queue-grew":                  50,
-		"hostile-inputs-tokenised":          3000,
-		"eof-repeated-calls":                8000,
+		"exhaustive-sequences":                    1 << 18,
+		"queue-with-hundreds-of-pending-elements": 50,
+		"nesting-chain-deeper-than-64":            100,
+		"queue-ops":                               3000000,
+		"queue-growths":                           8000,
+		"queue-growths-with-wrapped-head":         6000,
+		"sequences-with>=2-wrapped-growths":       200,
+		"stack-ops":                               50000,
+		"stack-clear":                             500,
+		"stack-pushall":                           1000,
+		"inputs-tokenised":                        8000,
+		"inputs-with-indent":                      2000,
+		"tokens":                                  1000000,
+		"indent-tokens":                           20000,
+		"multi-level-dedent>=3":                   500,
+		"lexer-queue-grew":                        50,
+		"hostile-inputs-tokenised":                3000,
+		"eof-repeated-calls":                      8000,
 	}
 }
 
 func (c20) Rule() string {
-	return "cases 0..255 = the bounded-exhaustive part: every sequence over {enqueue, dequeue} of length 18 (quick) / 24 (thorough) on container.Queue, compared after every operation (Dequeue result, Peek, Size) with a slice model. Further cases = (a) one PRNG sequence of 400 operations biased to hover around 8, 16 and 32 elements with a rotated head, so that several growths happen while the ring is wrapped (counted through the verif hook VerifRingState), (b) one PRNG sequence of 300 operations on container.Stack incl. PushAll, Clear, Peek, Size against a slice model, (c) 15 inputs tokenised with the indentation-aware lexer: generated programs in PRNG layouts incl. nesting chains 6-10 deep (multi-level dedents, token queue growth inside the lexer, read through the hook VerifPending), token-level mutations, truncations and raw byte strings. Token oracle: no nil token, no DEDENT when the running INDENT-DEDENT balance is 0, balance 0 at the first EOF, EOF within 3*len+16 calls, 3 further calls return EOF, no panic. Non-trivial: the sequence reaches >=9 elements with a rotated head, or the input produces >=1 INDENT. Distinct by hash of the operation sequence / the input."
+	return "cases 0..255 = the bounded-exhaustive part: every sequence over {enqueue, dequeue} of length 18 (quick) / 24 (thorough) on container.Queue, compared after every operation (Dequeue result, Peek, Size) with a slice model. Further cases = (a) one PRNG sequence of 400 operations biased to hover around 8, 16 and 32 elements with a rotated head, so that several growths happen while the ring is wrapped (counted through the verif hook VerifRingState), one case in eight runs 9000 operations hovering around 65 ... 2300 pending elements instead; (b) one PRNG sequence of 300 operations on container.Stack incl. PushAll, Clear, Peek, Size against a slice model, (c) 15 inputs tokenised with the indentation-aware lexer: generated programs in PRNG layouts incl. nesting chains 6-10 deep and, one in six, 66-160 deep (multi-level dedents, token queue growth inside the lexer, read through the hook VerifPending), token-level mutations, truncations and raw byte strings. Token oracle: no nil token, no DEDENT when the running INDENT-DEDENT balance is 0, balance 0 at the first EOF, EOF within 3*len+16 calls, 3 further calls return EOF, no panic. Non-trivial: the sequence reaches >=9 elements with a rotated head, or the input produces >=1 INDENT. Distinct by hash of the operation sequence / the input."
 }
 
 func (c20) Assumptions() []string {
@@ -199,10 +201,20 @@ func (p c20) Run(c *core.Ctx) {
 		var trace []byte
 		drainedAndReused := false
 		target := []int{8, 16, 32}[r.Intn(3)]
+		ops, big := 400, c.Idx%8 == 3
+		if big {
+			// hundreds to thousands of pending elements (growths at 64 ... 2048 with a rotated head)
+			ops = 9000
+			target = []int{100, 300, 700}[r.Intn(3)]
+			c.Feature("queue-with-hundreds-of-pending-elements")
+		}
 		d := guard(func() string {
-			for i := 0; i < 400; i++ {
-				if i%100 == 99 {
+			for i := 0; i < ops; i++ {
+				if i%100 == 99 && !big {
 					target = []int{8, 16, 32, 64}[r.Intn(4)]
+				}
+				if big && i%1500 == 1499 {
+					target = []int{65, 130, 260, 520, 1100, 2300}[r.Intn(6)]
 				}
 				enq := r.Chance(1, 2)
 				if len(k.model) < target-2 {
@@ -352,7 +364,12 @@ func (p c20) Run(c *core.Ctx) {
 		var prog *hast.Program
 		if r.Chance(1, 3) {
 			id := 0
-			prog = &hast.Program{Readers: 1, Nodes: []*hast.Node{{Title: "Start", Body: deepChain(r, r.Range(6, 10), &id)}}}
+			depth := r.Range(6, 10)
+			if r.Chance(1, 6) {
+				depth = r.Range(66, 160) // deeper than any fixed nesting limit; hundreds of pending DEDENTs at once
+				c.Feature("nesting-chain-deeper-than-64")
+			}
+			prog = &hast.Program{Readers: 1, Nodes: []*hast.Node{{Title: "Start", Body: deepChain(r, depth, &id)}}}
 		} else {
 			cfg := gen.DefaultFlow()
 			cfg.MaxReaders = 1
